@@ -45,17 +45,26 @@ TRUSTED_BASE_COMMON = [
 
 
 class Lock:
+    """process-wide (flock) build lock; re-entrant within one process"""
+    _depth = 0
+    _file = None
+
     def __init__(self, name="build"):
         self.path = os.path.join(ROOT, ".lock")
 
     def __enter__(self):
-        self.f = open(self.path, "w")
-        fcntl.flock(self.f, fcntl.LOCK_EX)
+        if Lock._depth == 0:
+            Lock._file = open(self.path, "w")
+            fcntl.flock(Lock._file, fcntl.LOCK_EX)
+        Lock._depth += 1
         return self
 
     def __exit__(self, *a):
-        fcntl.flock(self.f, fcntl.LOCK_UN)
-        self.f.close()
+        Lock._depth -= 1
+        if Lock._depth == 0:
+            fcntl.flock(Lock._file, fcntl.LOCK_UN)
+            Lock._file.close()
+            Lock._file = None
 
 
 def sh(cmd, cwd=None, timeout=1800, env=None):
